@@ -31,12 +31,20 @@ macro_rules! dispatch {
                 type $p = props::c03::C03;
                 $body
             }
+            "C04" => {
+                type $p = props::c04::C04;
+                $body
+            }
             "C07" => {
                 type $p = props::c07::C07;
                 $body
             }
             "C08" => {
                 type $p = props::c08::C08;
+                $body
+            }
+            "C09" => {
+                type $p = props::c09::C09;
                 $body
             }
             "C10" => {
